@@ -175,7 +175,12 @@ def cli_path(variant="default"):
     return os.path.join(BUILD, "impl", variant, "primesieve")
 
 
+# probes that need special link flags (the fault-injection probe wraps malloc/realloc/free)
+PROBE_FLAGS = {"fault_probe": ("-Wl,--wrap=malloc", "-Wl,--wrap=realloc", "-Wl,--wrap=free")}
+
+
 def build_probe(name, variant="default", extra_flags=()):
+    extra_flags = tuple(extra_flags) or PROBE_FLAGS.get(name, ())
     with _BUILD_LOCK:
         return _build_probe(name, variant, extra_flags)
 
